@@ -697,6 +697,27 @@ func (w *World) slotOfENI(e int) int {
 	return 0
 }
 
+// ownedOn returns the addresses a pod owns on the interface of one slot.
+func (w *World) ownedOn(pod, slot int) (e, a4, a6 int) {
+	if slot < 1 || slot > len(w.locals) || pod == 0 {
+		return
+	}
+	s := w.locals[slot-1].VerifSnapshot()
+	for _, v := range s.V4 {
+		if PodNum(v.Pod) == pod {
+			a4 = AddrID(v.Addr)
+			e = eniNum(s.ENI.ID)
+		}
+	}
+	for _, v := range s.V6 {
+		if PodNum(v.Pod) == pod {
+			a6 = AddrID(v.Addr)
+			e = eniNum(s.ENI.ID)
+		}
+	}
+	return
+}
+
 // owned returns the addresses a pod owns on any interface.
 func (w *World) owned(pod int) (e, a4, a6 int) {
 	for _, l := range w.locals {
@@ -749,8 +770,13 @@ func (w *World) mark() {
 			if rp, ok := replies[r[2]]; ok {
 				if rp[2] == 1 {
 					r[9], r[10] = rp[4], rp[5]
-				} else {
-					r[9], r[10] = rp[6], rp[7]
+				} else if rp[6] != 0 || rp[7] != 0 {
+					// an error reply although something was delivered: what the pod owns on THIS interface
+					// (a pod that holds addresses on two interfaces — known finding of C01 — must not have the
+					// other interface's addresses attributed to this attempt)
+					if e, o4, o6 := w.ownedOn(r[3], r[1]); e != 0 {
+						r[9], r[10] = o4, o6
+					}
 				}
 			} else if r[3] != 0 {
 				// no reply record (the request was made by the daemon's handler): what the pod owns on this interface now
